@@ -67,8 +67,25 @@ def check(ctx):
                "load_tree no longer skips keys whose environment variable is set: a document loaded afterwards overrides the variable")
         return
     ctx.ob("skip.exists", lt, "skip guard for keys bound to a set variable", True, "load_tree consults the variable before applying a key")
+    Config_ = model.cls("Config")
+
+    def same_skip_guard(fn, n):
+        """another tree loader of Config that consults the variable in the very test load_tree uses (shared code expanded twice)"""
+        if fn.cls is None or not fn.cls.is_subclass_of(Config_) or fn.name == "__init__":
+            return False
+        def test_text(f_, n_):
+            p_ = n_.ast
+            while p_ is not None and not isinstance(p_, (ast.If, ast.While, ast.IfExp, ast.stmt)):
+                p_ = getattr(p_, "_parent", None)
+            return ast.unparse(p_.test) if isinstance(p_, (ast.If, ast.While, ast.IfExp)) else None
+        mine = test_text(fn, n)
+        import re as _re
+        norm = lambda t_: _re.sub(r"__inl\d+_", "", t_) if t_ else t_
+        theirs = {norm(test_text(lt, n2)) for f2, n2 in sites if f2 is lt}
+        return mine is not None and norm(mine) in theirs
     for fn, n in sites:
-        ok = fn is sd or fn is lt
+        # (a field's own default route may consult the variable as well: what it does with it is judged by the sibling rule)
+        ok = fn is sd or fn is lt or same_skip_guard(fn, n) or (fn.name == "__setdefault__" and fn.cls is not None and fn.cls.is_subclass_of(Field))
         ctx.ob("env-read.sites", fn, n.ast, ok, "environment consulted by the default route / the load skip guard" if ok else
                "%s reads the environment: a third place decides about variables on its own" % fn.qualname, node=n)
     # ---- the two consumers of the variable decide by one predicate: a table over (name setting, variable content) ----------
@@ -271,7 +288,25 @@ def check(ctx):
             continue
         g = an.cfg(f)
         keep = {n for n in g.nodes if sd in an.callees(f, n) or any(e[0] == "ENV_READ" for e in calls.direct(f, n))}
-        p = path_avoiding(an, f, g.entry, lambda n: n is g.exit, lambda n: n in keep)
+        # asked for a field that *is* bound to a variable (the setting is a non-empty name): without one there is nothing to read
+        from engine.specialize import Spec as _Spec
+
+        def bound(e, node, f=f):
+            def is_env(x):
+                if isinstance(x, ast.Attribute) and x.attr == "env" and isinstance(x.value, ast.Name) and x.value.id == f.self_name:
+                    return True
+                if isinstance(x, ast.Name):
+                    ss = value_sources(f, x, node)
+                    return bool(ss) and all(k_ == "expr" and isinstance(p_, ast.Attribute) and p_.attr == "env" for k_, p_ in ss)
+                return False
+            if is_env(e):
+                return True
+            if isinstance(e, ast.Call) and isinstance(e.func, ast.Name) and e.func.id == "isinstance" and len(e.args) == 2 and is_env(e.args[0]) \
+                    and isinstance(e.args[1], ast.Name) and e.args[1].id == "str":
+                return True
+            return None
+        spb = _Spec(an, f, bound)
+        p = path_avoiding(an, f, g.entry, lambda n: n is g.exit, lambda n: n in keep, edge_filter=spb.edge_ok)
         ctx.ob("sibling", f, "env-route", p is None,
                "every normal path delegates to Field.__setdefault__ (or reads the variable itself)" if p is None else
                "%s can finish without the environment route although load_tree skips the file value when the variable is set "
